@@ -346,7 +346,7 @@ template<class F, class T> static void segment(vt::Rng& g, long seg, long events
   std::unique_ptr<Sk> sk[NS], tw[NS];
   Shape shape[NS]; std::vector<long> pool[NS]; long version[NS] = {0, 0, 0, 0};
   std::vector<uint8_t> blob[NB]; int blob_src[NB] = {-1, -1, -1}; long blob_ver[NB] = {0, 0, 0};
-  const bool hra = g.chance(50);
+  const bool hra = (seg / 3) % 2 == 0;      // both accuracy modes in every file (the families cycle with period 3)
   uint64_t opseed = g.next();
   auto drop_twin = [&](int i) { if (tw[i]) { tw[i].reset(); Ev("Destroy").i("id", TW + i).b("restored", true).emit(); } };
   auto mk = [&](int i, unsigned kforce = 0) {
@@ -380,6 +380,107 @@ template<class F, class T> static void segment(vt::Rng& g, long seg, long events
       Ev t("Update"); t.i("id", TW + i).d("v", A::key(x)).b("rv", rv).b("restored", true).i("twinOf", i); if (!g_bits.empty()) t.il("coins", g_bits); scalars<F, T>(t, *tw[i]); t.emit();
     }
   };
+  // query; merge; query on the target (and its twin, through a copy of the source); rv: the source is moved from and dead afterwards
+  auto do_merge = [&](int i, int j, bool rv, uint64_t os) {
+    Sk& s = *sk[i];
+      // query; merge; query - the queries before the merge cache the sorted view of the target
+      observe(i, os + 3);
+      if (tw[i]) { Ev("Copy").i("src", j).i("dst", TMP).emit(); }
+      std::unique_ptr<Sk> tmp; if (tw[i]) tmp.reset(new Sk(*sk[j]));
+      seed_op(os); if (rv) s.merge(std::move(*sk[j])); else s.merge(*sk[j]);
+      version[i]++;
+      for (long v : pool[j]) remember(i, v);
+      { Ev e("Merge"); e.i("dst", i).i("src", j).b("rv", rv).i("srck", sk[j] ? sk[j]->get_k() : 0).il("coins", g_bits); scalars<F, T>(e, s); iterate<F, T>(e, s, nullptr); e.emit(); }
+      if (tw[i]) {
+        seed_op(os); if (rv) tw[i]->merge(std::move(*tmp)); else tw[i]->merge(*tmp);
+        Ev t("Merge"); t.i("dst", TW + i).i("src", TMP).b("rv", rv).b("restored", true).i("twinOf", i).il("coins", g_bits); scalars<F, T>(t, *tw[i]); iterate<F, T>(t, *tw[i], nullptr); t.emit();
+        if (!rv) Ev("Destroy").i("id", TMP).emit();
+      }
+      if (rv) { drop_twin(j); sk[j].reset(); version[j]++; }   // moved-from: not used again
+      observe(i, os + 5);
+  };
+  auto do_ser = [&](int i, int b, unsigned hdr) {
+    Sk& s = *sk[i];
+      // serialize: bytes form with a header of h reserved bytes, stream form, advertised size
+      auto bytes = s.serialize(hdr);
+      std::ostringstream os_; s.serialize(os_); std::string st = os_.str();
+      version[i]++;   // serialize() itself may reorder (classic: sorts the base buffer) - the image is taken afterwards
+      blob[b].assign(bytes.begin() + hdr, bytes.end()); blob_src[b] = i; blob_ver[b] = version[i];
+      Ev e("Ser"); e.i("id", i).i("blob", b).i("hdr", hdr).i("total", (long long)bytes.size()).i("size", (long long)blob[b].size())
+        .i("advertised", (long long)s.get_serialized_size_bytes()).bytes("img", blob[b].data(), blob[b].size()).bytes("simg", st.data(), st.size());
+      scalars<F, T>(e, s); iterate<F, T>(e, s, nullptr); e.emit();
+      if (tw[i]) {
+        // serialization has side effects (the classic sketch sorts its base buffer): the restored twin does it too
+        auto tb = tw[i]->serialize(hdr);
+        std::ostringstream ts_; tw[i]->serialize(ts_); std::string tst = ts_.str();
+        Ev t("Ser"); t.i("id", TW + i).i("blob", NB + b).i("hdr", hdr).i("total", (long long)tb.size()).i("size", (long long)tb.size() - hdr)
+          .i("advertised", (long long)tw[i]->get_serialized_size_bytes()).bytes("img", tb.data() + hdr, tb.size() - hdr).bytes("simg", tst.data(), tst.size())
+          .b("restored", true).i("twinOf", i).i("twinBlob", b);
+        scalars<F, T>(t, *tw[i]); iterate<F, T>(t, *tw[i], nullptr); t.emit();
+      }
+  };
+  // deserialize image b: as a twin of its (unchanged) source, continued in lock-step, or into a free slot (want_twin / want_stream: -1 = draw)
+  auto do_deser = [&](int b, int want_twin, int want_stream, uint64_t os) -> bool {
+      // deserialize an image: as a twin of its (unchanged) source, continued in lock-step, or into a free slot
+      if (blob_src[b] < 0) return false;
+      int src = blob_src[b];
+      const bool fresh = sk[src] && version[src] == blob_ver[b];
+      int dst = -1; bool as_twin = false;
+      if (fresh && (want_twin == 1 || (want_twin < 0 && g.chance(70)))) { as_twin = true; dst = TW + src; }
+      else { if (want_twin == 1) return false; for (int c = 0; c < NS; c++) if (!sk[c]) dst = c; if (dst < 0) return false; }
+      const bool stream = want_stream < 0 ? g.chance(50) : want_stream == 1;
+      std::unique_ptr<Sk> r; long long consumed;
+      seed_op(os);
+      if (stream) {
+        std::string in((const char*)blob[b].data(), blob[b].size()); in += std::string(16, '\x5a');
+        std::istringstream is(in);
+        r.reset(new Sk(Sk::deserialize(is)));
+        consumed = (long long)is.tellg();
+      } else {
+        r.reset(new Sk(Sk::deserialize(blob[b].data(), blob[b].size())));
+        consumed = (long long)blob[b].size();
+      }
+      auto re = r->serialize();
+      if (as_twin) drop_twin(src);
+      Ev e("Deser"); e.i("blob", b).i("dst", dst).str("fam", F::name()).str("path", stream ? "stream" : "bytes").i("consumed", consumed)
+        .bytes("reimg", re.data(), re.size()).b("restored", true);
+      if (as_twin) e.i("twinOf", src);
+      e.il("coins", g_bits);      // REQ draws one coin per restored compactor
+      scalars<F, T>(e, *r); iterate<F, T>(e, *r, nullptr); e.emit();
+      if (as_twin) tw[src] = std::move(r);
+      else { sk[dst] = std::move(r); shape[dst] = shape[src]; pool[dst] = pool[src]; version[dst]++; }
+      return true;
+  };
+  // DIRECTED (C09: restore, then continue): at the EMPTY state and at exactly ONE item the sketch is serialized (bytes with a header and
+  // stream form), restored through the bytes / stream path as a twin, and both are continued in lock-step under the same coins: updates
+  // into estimation mode, queries, a merge INTO them, their use as merge OPERANDS of two equal sketches, a second serialization.  The
+  // twin must show the same observable behaviour (all scalars for every family; pairs and images where the coins are shared).
+  for (int round = 0; round < 2; round++) {
+    static const unsigned HS2[] = {0, 1, 7, 8, 13, 64, 0};
+    const bool one = (seg + round) % 2 == 1, stream = (seg / 2 + round) % 2 == 1;
+    const unsigned kd = F::min_k() * ((seg + round) % 3 == 0 ? 2 : 1);
+    uint64_t os = opseed ^ (0x5151ULL + (uint64_t)round * 977);
+    mk(0, kd);
+    if (one) update_one(0, next_value(shape[0], g), false, os++, false);
+    do_ser(0, 0, HS2[(seg + round) % 7]);
+    if (!do_deser(0, 1, stream ? 1 : 0, os++)) { fprintf(stderr, "quant_rec: directed restore failed\n"); exit(6); }
+    for (int t = 0; t < 45; t++) update_one(0, next_value(shape[0], g), t % 2 == 1, os++, t % 9 == 8);
+    observe(0, os++);
+    mk(1, kd); for (int t = 0; t < 35; t++) update_one(1, next_value(shape[1], g), false, os++, false);
+    do_merge(0, 1, round == 1, os++);
+    // the original and the restored sketch as merge operands of two equal sketches
+    mk(2, F::min_k()); for (int t = 0; t < 25; t++) update_one(2, next_value(shape[2], g), false, os++, false);
+    {
+      const int Y2 = 31;
+      Ev("Copy").i("src", 2).i("dst", Y2).emit(); Sk y2(*sk[2]);
+      seed_op(os); sk[2]->merge(*sk[0]); version[2]++;
+      { Ev e("Merge"); e.i("dst", 2).i("src", 0).b("rv", false).i("srck", sk[0]->get_k()).il("coins", g_bits); scalars<F, T>(e, *sk[2]); iterate<F, T>(e, *sk[2], nullptr); e.emit(); }
+      seed_op(os); y2.merge(*tw[0]);
+      { Ev t("Merge"); t.i("dst", Y2).i("src", TW + 0).b("rv", false).b("restored", true).i("twinOf", 2).il("coins", g_bits); scalars<F, T>(t, y2); iterate<F, T>(t, y2, nullptr); t.emit(); }
+      Ev("Destroy").i("id", Y2).emit(); os++;
+    }
+    do_ser(0, 1, 0);
+  }
   mk(0); mk(1);
   for (long step = 0; step < events; step++) {
     int i = (int)g.below(NS);
@@ -427,21 +528,7 @@ template<class F, class T> static void segment(vt::Rng& g, long seg, long events
         const uint64_t per = 2ULL * sk[j]->get_k(); int added = 0;
         while (sk[j]->get_n() % per != 0 && added < 130 && s.get_n() + sk[j]->get_n() < (uint64_t)maxn) { update_one(j, next_value(shape[j], g), false, os + 7 + (uint64_t)added * 31, false); added++; }
       }
-      // query; merge; query - the queries before the merge cache the sorted view of the target
-      observe(i, os + 3);
-      if (tw[i]) { Ev("Copy").i("src", j).i("dst", TMP).emit(); }
-      std::unique_ptr<Sk> tmp; if (tw[i]) tmp.reset(new Sk(*sk[j]));
-      seed_op(os); if (rv) s.merge(std::move(*sk[j])); else s.merge(*sk[j]);
-      version[i]++;
-      for (long v : pool[j]) remember(i, v);
-      { Ev e("Merge"); e.i("dst", i).i("src", j).b("rv", rv).i("srck", sk[j] ? sk[j]->get_k() : 0).il("coins", g_bits); scalars<F, T>(e, s); iterate<F, T>(e, s, nullptr); e.emit(); }
-      if (tw[i]) {
-        seed_op(os); if (rv) tw[i]->merge(std::move(*tmp)); else tw[i]->merge(*tmp);
-        Ev t("Merge"); t.i("dst", TW + i).i("src", TMP).b("rv", rv).b("restored", true).i("twinOf", i).il("coins", g_bits); scalars<F, T>(t, *tw[i]); iterate<F, T>(t, *tw[i], nullptr); t.emit();
-        if (!rv) Ev("Destroy").i("id", TMP).emit();
-      }
-      if (rv) { drop_twin(j); sk[j].reset(); version[j]++; }   // moved-from: not used again
-      observe(i, os + 5);
+      do_merge(i, j, rv, os);
     } else if (op < upd + 17) {
       observe(i, os);
       if (g.chance(12)) convert_wide<F, T>(*sk[i], i, 30);
@@ -489,56 +576,10 @@ template<class F, class T> static void segment(vt::Rng& g, long seg, long events
         e.emit();
       }
     } else if (op < upd + 22 + serde_pct) {
-      // serialize: bytes form with a header of h reserved bytes, stream form, advertised size
-      int b = (int)g.below(NB);
       static const unsigned HS[] = {0, 0, 1, 7, 8, 13, 64};
-      unsigned hdr = HS[g.below(7)];
-      auto bytes = s.serialize(hdr);
-      std::ostringstream os_; s.serialize(os_); std::string st = os_.str();
-      version[i]++;   // serialize() itself may reorder (classic: sorts the base buffer) - the image is taken afterwards
-      blob[b].assign(bytes.begin() + hdr, bytes.end()); blob_src[b] = i; blob_ver[b] = version[i];
-      Ev e("Ser"); e.i("id", i).i("blob", b).i("hdr", hdr).i("total", (long long)bytes.size()).i("size", (long long)blob[b].size())
-        .i("advertised", (long long)s.get_serialized_size_bytes()).bytes("img", blob[b].data(), blob[b].size()).bytes("simg", st.data(), st.size());
-      scalars<F, T>(e, s); iterate<F, T>(e, s, nullptr); e.emit();
-      if (tw[i]) {
-        // serialization has side effects (the classic sketch sorts its base buffer): the restored twin does it too
-        auto tb = tw[i]->serialize(hdr);
-        std::ostringstream ts_; tw[i]->serialize(ts_); std::string tst = ts_.str();
-        Ev t("Ser"); t.i("id", TW + i).i("blob", NB + b).i("hdr", hdr).i("total", (long long)tb.size()).i("size", (long long)tb.size() - hdr)
-          .i("advertised", (long long)tw[i]->get_serialized_size_bytes()).bytes("img", tb.data() + hdr, tb.size() - hdr).bytes("simg", tst.data(), tst.size())
-          .b("restored", true).i("twinOf", i).i("twinBlob", b);
-        scalars<F, T>(t, *tw[i]); iterate<F, T>(t, *tw[i], nullptr); t.emit();
-      }
+      do_ser(i, (int)g.below(NB), HS[g.below(7)]);
     } else {
-      // deserialize an image: as a twin of its (unchanged) source, continued in lock-step, or into a free slot
-      int b = (int)g.below(NB);
-      if (blob_src[b] < 0) continue;
-      int src = blob_src[b];
-      const bool fresh = sk[src] && version[src] == blob_ver[b];
-      int dst = -1; bool as_twin = false;
-      if (fresh && g.chance(70)) { as_twin = true; dst = TW + src; }
-      else { for (int c = 0; c < NS; c++) if (!sk[c]) dst = c; if (dst < 0) continue; }
-      const bool stream = g.chance(50);
-      std::unique_ptr<Sk> r; long long consumed;
-      seed_op(os);
-      if (stream) {
-        std::string in((const char*)blob[b].data(), blob[b].size()); in += std::string(16, '\x5a');
-        std::istringstream is(in);
-        r.reset(new Sk(Sk::deserialize(is)));
-        consumed = (long long)is.tellg();
-      } else {
-        r.reset(new Sk(Sk::deserialize(blob[b].data(), blob[b].size())));
-        consumed = (long long)blob[b].size();
-      }
-      auto re = r->serialize();
-      if (as_twin) drop_twin(src);
-      Ev e("Deser"); e.i("blob", b).i("dst", dst).str("fam", F::name()).str("path", stream ? "stream" : "bytes").i("consumed", consumed)
-        .bytes("reimg", re.data(), re.size()).b("restored", true);
-      if (as_twin) e.i("twinOf", src);
-      e.il("coins", g_bits);      // REQ draws one coin per restored compactor
-      scalars<F, T>(e, *r); iterate<F, T>(e, *r, nullptr); e.emit();
-      if (as_twin) tw[src] = std::move(r);
-      else { sk[dst] = std::move(r); shape[dst] = shape[src]; pool[dst] = pool[src]; version[dst]++; }
+      do_deser((int)g.below(NB), -1, -1, os);
     }
   }
   for (int i = 0; i < NS; i++) if (sk[i]) {
@@ -570,7 +611,7 @@ int main(int argc, char** argv) {
   random_utils::random_bit.context = &g_coin;
   vt::Rng g(seed);
   for (long seg = 0; seg < segments; seg++) {
-    int fam = (int)((seed + (uint64_t)seg) % 3); int type = (int)g.below(4);
+    int fam = (int)((seed + (uint64_t)seg) % 3); int type = (int)((seed + (uint64_t)seg / 3 + 2 * ((uint64_t)seg % 3)) % 4);   // every family meets every item type
     if (!strcmp(only, "kll")) fam = 0; else if (!strcmp(only, "req")) fam = 1; else if (!strcmp(only, "classic")) fam = 2;
     if (fam == 0) by_type<KllF>(type, g, seg, events, kscale == 1 ? 64 : 200, maxn, serde);
     else if (fam == 1) by_type<ReqF>(type, g, seg, events, kscale == 1 ? 24 : 50, maxn, serde);
